@@ -74,9 +74,11 @@ Definition put_obj (k : kind) (d : bytes) : M bytes :=
   emit (EPutObj (obj_id k d) (payload k d)) ;;; ret (obj_id k d).
 
 (* refs.go name validation (after the repair) *)
+Definition is_ctl (c : byte) : bool := N.ltb (bN c) 32 || N.eqb (bN c) 127.
 Definition valid_branch_name (n : bytes) : bool :=
   negb (is_nil n) && negb (bytes_eqb n [x2e]) && negb (bytes_eqb n [x2e; x2e])
-  && negb (contains_byte c_slash n) && negb (contains_byte x5c n).
+  && negb (contains_byte c_slash n) && negb (contains_byte x5c n)
+  && negb (existsb is_ctl n).
 
 Definition dir_empty (w : world) (d : bytes) : bool :=
   negb (existsb (fun kv => under_dir d (fst kv)) (w_files w))
